@@ -238,6 +238,7 @@ def impl_import_text(text):
 def dump_yaml(data):
     import ruamel.yaml as yaml
     yml = yaml.YAML(typ='safe', pure=True)
+    yml.default_flow_style = False     # ruamel cannot re-read some of its own flow mappings
     out = io.StringIO()
     yml.dump(data, out)
     return out.getvalue()
